@@ -6,10 +6,11 @@ ops (see harness/src/freq.rs):
   8 deserialize slot k hashes.. bytes.. | 9 reset slot | 10 epsilon slot
   11 parse slot k hashes.. bytes.. (slot cleared first, allocation accounted) | 12 canon slot (image decoded, pairs sorted)
 focus (legs of the cross-cutting properties): "codec" C11, "layout" C12, "foreign" C13, "malformed" C14,
-  "extremes" C17, "size" C18; None = C07.
+  "extremes" C17, "size" C18; "drift" / "drift-image": the DRIFT_LIMIT debug assertion (known findings); None = C07.
 The hash of an item (MurmurHash3 x64 128 of its 8 LE bytes, seed 9001, first word) is computed here
 with tools/pyref.py and handed to the model; the crate hashes the item itself.
 """
+import os
 import struct
 from common import Case
 import pyref
@@ -804,7 +805,49 @@ def gen_size(rng, cid, tier, size, lgn):
     return Case(cid, [], ops, tag="fi-size-%s-%d-%d" % (kind, size, lgn))
 
 
+DRIFT_FILE = os.path.join(os.path.dirname(os.path.abspath(__file__)), "freq_drift_items.txt")
+
+
+def drift_items():
+    """1101 items whose hashes fall into the first 8 slots of a 2048-slot table: they form one probe run of more than
+    DRIFT_LIMIT = 1024 occupied slots.  Cached in freq_drift_items.txt; recomputed when the cache does not fit the hash."""
+    items = []
+    if os.path.exists(DRIFT_FILE):
+        items = [int(t) for t in open(DRIFT_FILE).read().split()]
+    if len(items) != 1101 or any((h(x) & 2047) >= 8 for x in items[:20] + items[-20:]):
+        items, x = [], 0
+        while len(items) < 1101:
+            if (h(x) & 2047) < 8:
+                items.append(x)
+            x += 1
+        try:
+            open(DRIFT_FILE, "w").write(" ".join(map(str, items)))
+        except OSError:
+            pass
+    return items
+
+
+def gen_drift(rng, cid, image):
+    """known findings C17-freq-drift-limit / C14-freq-drift-limit: debug_assert!(drift < DRIFT_LIMIT) fires (debug builds
+    only) when a probe sequence passes 1024 occupied slots; reachable by valid updates of items chosen for their hashes,
+    and by an image holding such items.  The op that panics in debug is excluded from the comparison with the model
+    (legs' mask), everything after it is compared in the release profile."""
+    items = drift_items()
+    if image:
+        b = spec_image(11, 11, len(items), 0, [(x, 1) for x in items])
+        ops = [parse_op(0, b), (3, [0]), (12, [0]), (2, [0, items[-1], h(items[-1])])]
+        return Case(cid, [], ops, tag="fi-drift-image")
+    ops = [(0, [0, 2048])]
+    for x in items:
+        ops.append((1, [0, x, 1, h(x)]))
+    ops += [(3, [0]), (12, [0]), (2, [0, items[-1], h(items[-1])]), (2, [0, items[0], h(items[0])])]
+    return Case(cid, [], ops, tag="fi-drift-updates")
+
+
 def gen(rng, tier, n=None, focus=None):
+    if focus in ("drift", "drift-image"):
+        # one (slow: probe runs of 1100 slots in the list-based model) case; n = 0 (the legs' quick tier) gives none
+        return [] if n == 0 else [gen_drift(rng, 0, focus == "drift-image")]
     if focus == "codec":
         n = n or (40 if tier == "quick" else 400)
         return [gen_codec(rng, i, tier, purge=(i % 2 == 1)) for i in range(n)]
